@@ -155,7 +155,7 @@ impl Property for C06 {
         vec!["inputs with syntax errors are returned unchanged by the formatter, hence trivially idempotent; they are counted as excluded, not judged".into()]
     }
     fn cases(&self, tier: Tier) -> u32 {
-        tier.pick(120_000, 6_000_000)
+        tier.pick(250_000, 10_000_000)
     }
     fn strategy(&self, tier: Tier) -> BoxedStrategy<FmtCase> {
         fmt_input::case(tier)
@@ -185,17 +185,18 @@ impl Property for C06 {
         obs.class_if(f1 != c.text, "f(x)!=x");
         // the output is not a function of (input, config) for blocks with two doc tags on one line (HashMap order):
         // probed, and reported under its own signature instead of as some random instability
-        let multi = a.multi_tag_lines > 0 || tokcanon::canon_tree(&tokcanon::parse(&f1, c.level), Quot::of(&c.cfg)).multi_tag_lines > 0;
-        if multi {
-            obs.class("two-doc-tags-on-one-line");
+        let c1x = tokcanon::canon_tree(&tokcanon::parse(&f1, c.level), Quot::of(&c.cfg));
+        let multi = a.multi_tag_lines > 0 || c1x.multi_tag_lines > 0;
+        if a.risky_doc_blocks > 0 || c1x.risky_doc_blocks > 0 {
+            obs.class("doc-block-with-continuation-or-two-tags");
             let mut stable = true;
             for _ in 0..4 {
                 stable = stable && run_formatter(&c.text, c.level, &c.cfg).map(|o| o == f1).unwrap_or(false) && run_formatter(&f1, c.level, &c.cfg).map(|o| o == f2).unwrap_or(false);
             }
             if !stable {
                 return Verdict::fail(
-                    "nondeterministic-output(two-doc-tags-on-one-line)",
-                    format!("formatting the same text twice gives different outputs (so --check after --write can report changes); input: {:?}", one_line(&c.text, 300)),
+                    "nondeterministic-output",
+                    format!("formatting the same text twice gives different outputs (so --check after --write can report changes); cfg: {}; input: {:?}", fmt_config::describe(&c.cfg), one_line(&c.text, 300)),
                 );
             }
         }
@@ -227,6 +228,7 @@ impl Property for C06 {
             }
             let construct = match tokcanon::compare(&f1, &c1, &f2, &c2, &c.cfg) {
                 _ if multi => "doc-line-with-second-comment-prefix".to_string(),
+                Some(d) if crate::props::c05::open_c05_signatures().contains(&d.sig) => return Verdict::Skip("pass2-shows-known-C05-family".into()),
                 Some(d) => format!("content:{}", d.sig),
                 None => layout_key(&a, &f1, &t1, &c1, &f2, off, &l1, &l2, &c.cfg),
             };
